@@ -3,7 +3,7 @@
 # Runs every seeded change under /verif/seeded through its own property's quick check and
 # related ones (ALL=1: through all 18). One summary line per seed.
 OUT="${1:-/tmp/seedsweep.log}"
-: > "$OUT"
+[ "${RESUME:-0}" = 1 ] || : > "$OUT"
 rel() {
   case "$1" in
     C01) echo "C01 C02 C05 C07" ;; C02) echo "C02 C13 C17" ;; C03) echo "C03 C09 C10 C02" ;; C04) echo "C04 C05 C17" ;;
@@ -15,7 +15,11 @@ rel() {
 for d in /verif/seeded/${SEED_GLOB:-C[0-9][0-9][a-z]}; do
   n=$(basename "$d")
   p=$(echo "$n" | cut -c1-3)
+  if [ "${RESUME:-0}" = 1 ] && grep -q "^$n |" "$OUT"; then continue; fi
   if [ "${ALL:-0}" = 1 ]; then checks=""; else checks=$(rel "$p"); fi
+  if [ "${OWN_ONLY:-0}" = 1 ]; then
+    case "$n" in C03p|C03q|C03r|C04g|C08h|C11q|C12j) ;; *) checks="$p" ;; esac
+  fi
   r=$("${VH_VERIF_DIR:-/verif}/tools/seedrun.sh" "$d" $checks 2>&1)
   own=MISSED; echo "$r" | grep '^CAUGHT BY' | grep -q " $p" && own=caught
   echo "$n | own-check:$own | $(echo "$r" | grep -E '^suite') | $(echo "$r" | grep '^CAUGHT BY') | $(echo "$r" | grep -E 'rc=3' | tr '\n' ';' | cut -c1-300)" >> "$OUT"
